@@ -624,6 +624,7 @@ func VerifC10SlowMatcher(n, late int) {
 // reads) explored: both calls return, nothing panics, no goroutine is left.
 func VerifC11CloseTwice(withCall int) {
 	verifSchedule(true)
+	verifScheduleAtomic(true)
 	conn := newVerifConn()
 	c, err := NewWithConn(conn, verifHW, WithTimeout(time.Duration(int64(verifU32("T"))+1)), WithRetry(1))
 	verifAssert(err == nil, "client-created")
